@@ -436,12 +436,11 @@ class MADDPG(MultiAgentRLAlgorithm):
         action_masks, env_defined_actions, agent_masks = self.process_infos(infos)
 
         # Preprocess observations
-        preprocessed_states = list(self.preprocess_observation(obs).values())
+        preprocessed_states = self.preprocess_observation(obs)
 
         action_dict = {}
-        for idx, (agent_id, obs, actor) in enumerate(
-            zip(self.agent_ids, preprocessed_states, self.actors)
-        ):
+        for idx, (agent_id, actor) in enumerate(zip(self.agent_ids, self.actors)):
+            obs = preprocessed_states[agent_id]
             actor.eval()
             if self.accelerator is not None:
                 with actor.no_sync(), torch.no_grad():
